@@ -6,19 +6,19 @@ sys.path.insert(0, os.path.join(ROOT, "checklib"))
 import props
 
 TEXT = {
- "C01": ("proof", "Lean theorems: the parser's IR refines canonical Brainfuck (both directions, prefix) for every program, input and width (level 0 complete; Props/ChainTotal level0_all_backends relates all back ends); the optimizer has an EXACT Lean model (Opt.lean, tied by structural equality of the optimized IR on every run); proved about it: its arithmetic cores (trip counts, geometric/triangular closed forms) and its dead store elimination pass (under analysis-soundness hypotheses tested per run); behaviour preservation of its rebuild round is not yet a theorem, so levels >= 1 additionally rest on per-program comparison of all back ends with the proved canonical semantics", "5/C01"),
- "C02": ("proof", "Lean theorems on the exact Lean port of bc::CodeGen::translate: all four phases (value-numbering emission, dead-store elimination, temporary allocation, late passes) preserve behaviour; translate is total and its output passes the contract check; composed end to end at level 0: canonical = bytecode machine for every source (both dispatch profiles); for optimizer output the chain starts at the IR under the per-run-tested hypothesis OnceOk; port tied to the Rust by EXACT bytecode equality, threaded interpreter = Bc.run on real bytecode in debug and release builds", "5/C02"),
- "C03": ("proof", "Lean theorems: whole-program simulation between the bytecode machine and a program-level x86 machine running the exact Lean port of the code generator (branches, limit check, checked/unchecked mov, runtime calls with register saving, prologue/epilogue, stack temporaries, 64-bit immediates), exact relocation, selector totality on generator output, composed with the C02 chain to source level at level 0 under explicit range hypotheses; machine code = encoding of the modelled instructions EXACTLY; x86 instruction semantics and the program-level machine validated against this CPU on every run", "5/C03"),
+ "C01": ("proof", "Lean theorems: the parser's IR refines canonical Brainfuck for every program, input and width; the optimizer has an EXACT Lean model (Opt.lean + the clobbered-set recomputation of OptFix.lean, tied on every run by structural equality of the optimized IR incl. the recorded hash iteration orders) and is proved behaviour preserving at EVERY optimization level for every oracle of iteration orders (optimizeF_preserves_all_levels'), never panicking and total; composed end to end: all_levels_all_backends relates canonical, in-place, IR interpreter, bytecode machine and JIT at every level. The proofs found and led to the repair of four miscompiles (F10 by the thorough tier; F11, F12, F13 by the proof itself)", "5/C01"),
+ "C02": ("proof", "Lean theorems on the exact Lean port of bc::CodeGen::translate: all four phases (value-numbering emission, dead-store elimination, temporary allocation, late passes) preserve behaviour; translate is total and its output passes the contract check; composed end to end at level 0: canonical = bytecode machine for every source (both dispatch profiles); for optimizer output the chain starts at the IR under the per-run-tested hypothesis OnceOk; port tied to the Rust by EXACT bytecode equality, threaded interpreter = Bc.run on real bytecode in debug and release builds — at every optimization level (Props/ChainFinal)", "5/C02"),
+ "C03": ("proof", "Lean theorems: whole-program simulation between the bytecode machine and a program-level x86 machine running the exact Lean port of the code generator (branches, limit check, checked/unchecked mov, runtime calls with register saving, prologue/epilogue, stack temporaries, 64-bit immediates), exact relocation, selector totality on generator output, composed with the C02 chain to source level at level 0 under explicit range hypotheses; machine code = encoding of the modelled instructions EXACTLY; x86 instruction semantics and the program-level machine validated against this CPU on every run — at every optimization level (Props/ChainFinal)", "5/C03"),
  "C04": ("proof", "Lean theorem inplace_* (Props/C04): the in-place interpreter model and the canonical semantics reach equal states for every balanced program, environment and width, termination reflected, prefix property, limited mode; model tied to src/exec/inplace.rs by differential correspondence on every run", "5/C04"),
- "C05": ("proof", "Lean theorems: divergence certificates are sound; canonical divergence/termination and the output before divergence are preserved by the in-place interpreter, the IR interpreter, the bytecode machine and (limited mode) the JIT at level 0 (corollaries of the composed refinement); optimized programs: two-phase check — Lean certifies candidates as halting/divergent, every back end x level is held to the verdict", "5/C05"),
+ "C05": ("proof", "Lean theorems: divergence certificates are sound; canonical divergence/termination and the output before divergence are preserved by the in-place interpreter, the IR interpreter, the bytecode machine and (limited mode) the JIT at level 0 (corollaries of the composed refinement); optimized programs: two-phase check — Lean certifies candidates as halting/divergent, every back end x level is held to the verdict; Props/ChainFinal extends this to optimized code at every level", "5/C05"),
  "C06": ("proof", "Lean theorems (Props/C06): on the layout model of the bounds-checked executors every tape access stays inside the allocation for every checked program and every move, growth preserves contents (with C09); the layout model equals the real (size, offset); all back ends run under a guard-page allocator (left and right)", "5/C06"),
- "C07": ("proof", "Lean theorems: limited execution of the in-place, IR and bytecode machines is a faithful prefix of the unlimited run, finishes with enough budget, terminates within an explicit bound, never reports finished on a divergent program; at level 0 also against the canonical semantics for the bytecode machine and the JIT (Props/ChainTotal); optimized programs and the real executors: budget ladder on all back ends vs models incl. remaining budget", "5/C07"),
- "C08": ("proof", "Lean theorems: I/O failure semantics of the shared state operations, stops are final and only at failing I/O on every machine, a refused byte's prefix is the fault-free run's prefix; in-place, IR and bytecode machine at level 0 stop exactly like canonical, JIT via the whole-program simulation; exhaustive fault-index enumeration on all real back ends x levels", "5/C08"),
+ "C07": ("proof", "Lean theorems: limited execution of the in-place, IR and bytecode machines is a faithful prefix of the unlimited run, finishes with enough budget, terminates within an explicit bound, never reports finished on a divergent program; at level 0 also against the canonical semantics for the bytecode machine and the JIT (Props/ChainTotal); optimized programs and the real executors: budget ladder on all back ends vs models incl. remaining budget; Props/ChainFinal extends this to optimized code at every level", "5/C07"),
+ "C08": ("proof", "Lean theorems: I/O failure semantics of the shared state operations, stops are final and only at failing I/O on every machine, a refused byte's prefix is the fault-free run's prefix; in-place, IR and bytecode machine at level 0 stop exactly like canonical, JIT via the whole-program simulation; exhaustive fault-index enumeration on all real back ends x levels; Props/ChainFinal extends this to optimized code at every level", "5/C08"),
  "C09": ("proof", "Lean theorems (Props/C09): Memory refines an unbounded zero-initialised array for every call history under an explicit 2^59 range guard; model tied to src/runtime.rs by call-history correspondence incl. (size, offset) after every call", "5/C09"),
- "C10": ("proof", "Lean theorems (Props/C10): mode-independence of the bytecode semantics, unchecked = checked while no growth happens, static region condition, level-0 offsets bounded by the program length; execute_unsafe on pre-grown contexts under guard pages vs canonical events", "5/C10"),
+ "C10": ("proof", "Lean theorems (Props/C10): mode-independence of the bytecode semantics, unchecked = checked while no growth happens, static region condition, level-0 offsets bounded by the program length; execute_unsafe on pre-grown contexts under guard pages vs canonical events; the window bound holds for optimized code at every level (Props/C10Opt, C01Fixed)", "5/C10"),
  "C11": ("proof", "Lean theorems: translateE_check — EVERY output of translate (any IR block, register count, fuse mode) passes the executable contract checker BcWf.check (branch targets, operand window containing 0, temp indices, definite initialisation on every path, liveness bitmaps), and the checker is sound w.r.t. the bytecode semantics; translate is total; the verified checker additionally runs on the real bytecode of every sampled program (cross-check of the port, which is tied by exact bytecode equality)", "5/C11"),
  "C12": ("proof", "Lean theorems (Props/C12): parser accepts iff balanced, error kind/position = declarative spec, comment and UTF-8 insensitivity, totality; model tied to Program::parse by structural IR/error correspondence", "5/C12"),
- "C13": ("proof", "Lean theorems: parser total; translate total (no panic site of emission or allocate_temps reachable, any register count) and contract-correct; the JIT's instruction selector total on generator output (only operand-range overflows remain); optimizer DSE fails exactly on a mis-shaped analysis; exact ties of IR optimizer, bytecode and machine-code generators to pure Lean functions (hence deterministic given the recorded iteration orders); panics elsewhere, hash-seed independence, reuse and blow-up are observed on the real code (catch_unwind, repeated and cross-process compilation, doubling families)", "5/C13"),
+ "C13": ("proof", "Lean theorems: parser total; translate total (no panic site of emission or allocate_temps reachable, any register count) and contract-correct; the JIT's instruction selector total on generator output (only operand-range overflows remain); optimizer DSE fails exactly on a mis-shaped analysis; exact ties of IR optimizer, bytecode and machine-code generators to pure Lean functions (hence deterministic given the recorded iteration orders); panics elsewhere, hash-seed independence, reuse and blow-up are observed on the real code (catch_unwind, repeated and cross-process compilation, doubling families); the optimizer (also the repaired model) never panics for any oracle and is total (Props/C13Opt, C01Fixed)", "5/C13"),
  "C14": ("proof", "Lean theorems (Props/C14) for every width w >= 1 and all operands: pow/inv/div contracts and conversion round trips; model tied to src/lib.rs exhaustively at 8 bit and on boundary/random operands at 16/32/64", "5/C14"),
  "C15": ("proof", "Lean theorems (Props/C15): value of add/mul/neg/half/normalize/substitution for all part lists; decompositions recompose under the normal form all constructors preserve; model tied to ir::Expr by operation-tree correspondence", "5/C15"),
  "C16": ("proof", "Lean theorems (Props/C16) about the front-end model with the flag table regenerated from src/bin/hpbf.rs on every run (translator) and proved equal to the model; black-box comparison of the real binary with the model and the canonical semantics", "5/C16"),
